@@ -18,7 +18,7 @@ TRUSTED = [
     "parquet statistics (num-rows) are taken as given; only the selection logic of _get_lengths is modelled",
 ]
 PARTIAL = [
-    "C06_partitions / C06_fusedio are proven for strictly ascending selections (Partitions/PartitionsFiltered report unknown divisions otherwise: C06_partitions_unknown; FusedIO does not: C06_fusedio_counterexample)",
+    "C06_partitions / C06_fusedio are proven for strictly ascending selections (Partitions/PartitionsFiltered and, since D71, FusedIO report unknown divisions otherwise: C06_partitions_unknown, C06_fusedio_guarded)",
     "C06_len_frompandas: _get_lengths is proven for unfiltered and strictly ascending _partitions; counterexample theorems for repeated/reordered selections and for both parquet readers",
     "C06_size: proven for frames with at least one column (counterexample: zero columns)",
     "indexed Merge / interleaved Concat: proven that unique(merge_sorted(...)) is sorted, duplicate-free and contains both inputs' divisions; truthfulness of the aligned partitions is C13's repartition theorem",
@@ -846,7 +846,7 @@ def _classify_len_result(le, r):
 def fam_len_rules(ctx):
     """T2: Len / Size / Lengths._simplify_down on constructed expressions."""
     import dask_expr as dx
-    from dask_expr._expr import Elemwise, Lengths
+    from dask_expr._expr import Elemwise, Index, Lengths, PartitionsFiltered
     from dask_expr._reductions import Len, Size
 
     f = Family("rule_output[Len/Size/Lengths._simplify_down]")
@@ -863,6 +863,13 @@ def fam_len_rules(ctx):
             "empty_cols": df[[]], "partitions": df.partitions[[0]], "binop_filters": df.a[df.a > 4] + df.v[df.v < 50],
         }
         exprs += [(f"{nm}[np={k}]", c.expr) for nm, c in more.items()]
+        if k > 1:
+            # a lowered shuffle that computes a selection of its partitions, and the Index of one (D108)
+            low = df.shuffle("b", shuffle_method="tasks").optimize(fuse=False).partitions[[1, 0]].expr.simplify()
+            for node in low.walk():
+                if isinstance(node, PartitionsFiltered) and node._filtered and type(node).__name__.endswith("Shuffle"):
+                    exprs += [(f"filtered_shuffle[np={k}]", node), (f"index_of_filtered_shuffle[np={k}]", Index(node))]
+                    break
     for nm, fr in exprs:
         try:
             cls, lp, clp, deps, c0, ndim, ncols = _len_features(fr)
@@ -873,7 +880,10 @@ def fam_len_rules(ctx):
             txt = _classify_len_result(le, le._simplify_down())
         except Exception as ex:  # noqa: BLE001
             txt = _err(ex)
-        reqs.append(f"ln lenrule frame={cls} lp={int(lp)} childlp={int(clp)} deps={_nat(deps)} concat0={int(c0)} ndim={ndim} ncols={ncols}")
+        sel = int(isinstance(fr, PartitionsFiltered) and fr._filtered)
+        inner = fr.frame if isinstance(fr, Index) else None
+        childsel = int(isinstance(inner, PartitionsFiltered) and inner._filtered)
+        reqs.append(f"ln lenrule frame={cls} lp={int(lp)} childlp={int(clp)} deps={_nat(deps)} concat0={int(c0)} ndim={ndim} ncols={ncols} sel={sel} childsel={childsel}")
         code.append(txt)
         inputs.append({"expr": nm, "rule": "Len._simplify_down"})
         # Size
